@@ -279,9 +279,99 @@ def _nan_name(v):
     return _NAN_NAME[id(v)]
 
 
+# round 5: the forms in which a Mapping can be handed to a constructor (C01_Values!MapForms).
+# For the live forms the caller keeps the dict behind the object it passes; build() notes
+# those dicts in _BACKING so that a later Mutate event can change them the way a caller would.
+_BACKING = []
+_UMAP = None
+
+
+def _umap_class():
+    """a Mapping implementation (collections.abc.Mapping subclass: unhashable) that reads a
+    dict its creator keeps"""
+    global _UMAP
+    if _UMAP is None:
+        from collections.abc import Mapping
+
+        class UMap(Mapping):
+            def __init__(self, d):
+                self._d = d
+
+            def __getitem__(self, k):
+                return self._d[k]
+
+            def __iter__(self):
+                return iter(self._d)
+
+            def __len__(self):
+                return len(self._d)
+
+        UMap.__module__ = __name__
+        UMap.__qualname__ = "UMap"
+        globals()["UMap"] = UMap
+        _UMAP = UMap
+    return _UMAP
+
+
+def _mapping_in_form(mt, d):
+    from collections import ChainMap, OrderedDict
+    from types import MappingProxyType
+    from immutabledict import immutabledict
+    if mt == "imm":
+        return immutabledict(d)
+    if mt == "pimm":
+        return MappingProxyType(immutabledict(d))
+    _BACKING.append(d)
+    if mt == "dict":
+        return d
+    if mt == "odict":
+        d = OrderedDict(d)
+        _BACKING[-1] = d
+        return d
+    if mt == "chain":
+        return ChainMap(d)
+    if mt == "proxy":
+        return MappingProxyType(d)
+    if mt == "umap":
+        return _umap_class()(d)
+    raise ValueError(mt)
+
+
+def _mapping_form(v):
+    """the form of a mapping met while reading a live object back (by type; what a
+    MappingProxyType is a view of is found without hashing or comparing anything)"""
+    import gc
+    from collections import ChainMap, OrderedDict
+    from types import MappingProxyType
+    from immutabledict import immutabledict
+    if isinstance(v, immutabledict):
+        return "imm"
+    if isinstance(v, OrderedDict):
+        return "odict"
+    if type(v) is dict:
+        return "dict"
+    if isinstance(v, ChainMap):
+        return "chain"
+    if isinstance(v, MappingProxyType):
+        under = [r for r in gc.get_referents(v) if hasattr(r, "keys")]
+        return "pimm" if len(under) == 1 and isinstance(under[0], immutabledict) else "proxy"
+    if _UMAP is not None and isinstance(v, _UMAP):
+        return "umap"
+    return None
+
+
+def mutate_backing(backing):
+    """what the caller of a constructor may do afterwards with the mutable containers it
+    passed: rebind the first entry, add an entry"""
+    for d in backing:
+        for k in d:
+            d[k] = 888
+            break
+        d["zz_late"] = 777
+
+
 def build(j):
     import numpy as np
-    from immutabledict import immutabledict
     t = j["t"]
     if t == "K":
         k = j["k"]
@@ -312,7 +402,7 @@ def build(j):
         return tuple(build(c) for c in j["c"])
     if t == "M":
         d = {e["k"]: build(e["v"]) for e in j["kv"]}
-        return immutabledict(d) if j["mt"] == "imm" else d
+        return _mapping_in_form(j["mt"], d)
     if t == "N":
         vals = [build(f) for f in j["f"]]
         if j["cls"] in BY_FIELD_TABLE:
@@ -335,7 +425,7 @@ def read(v):
     """Python value -> JSON shape of C01_Values (fields of nodes are read back from
     the live object)."""
     import numpy as np
-    from immutabledict import immutabledict
+    from collections.abc import Mapping
     import pymbolic.primitives as p
     if v is _MISSING:
         return {"t": "Missing"}
@@ -366,8 +456,11 @@ def read(v):
         return {"t": "Ty", "s": name} if name else {"t": "Unk", "s": repr(v)}
     if isinstance(v, tuple):
         return {"t": "T", "c": [read(c) for c in v]}
-    if isinstance(v, (dict, immutabledict)):
-        return {"t": "M", "mt": "imm" if isinstance(v, immutabledict) else "dict",
+    if isinstance(v, Mapping):
+        mt = _mapping_form(v)
+        if mt is None:
+            return {"t": "Unk", "s": type(v).__name__}
+        return {"t": "M", "mt": mt,
                 "kv": [{"k": str(k), "v": read(x)} for k, x in v.items()]}
     if isinstance(v, p.Expression):
         name = _classes()[1].get(type(v))
@@ -392,6 +485,7 @@ class _Trace:
         self.tids = {}
         self.d = {}
         self.blobs = {}
+        self.backing = {}       # index of a live object -> the mutable containers its builder kept
 
     def hid(self, raw):
         if raw not in self.hids:
@@ -459,8 +553,18 @@ def _step(tr, ev):
                     return _res("nopickle", exc=type(exc).__name__)
                 tr.objs.append(c)
                 return _res("new")
-            tr.objs.append(build(ev["spec"]))
+            del _BACKING[:]
+            try:
+                o = build(ev["spec"])
+            finally:
+                kept = list(_BACKING)
+                del _BACKING[:]
+            tr.objs.append(o)
+            tr.backing[len(tr.objs)] = kept
             return _res("new")
+        if op == "Mutate":
+            mutate_backing(tr.backing.get(i, []))
+            return _res("ok")
         if op == "Hash":
             return _res("ok", h=tr.hid(hash(a)))
         if op == "Eq":
@@ -535,7 +639,7 @@ def _blob_key(spec, md):
 def _nested_nodes(o, top=True):
     """expression nodes nested in the fields of o (not o itself), innermost first"""
     import pymbolic.primitives as p
-    from immutabledict import immutabledict
+    from collections.abc import Mapping
     out = []
     if isinstance(o, p.Expression):
         for v in list(o.__dict__.values()):
@@ -545,7 +649,7 @@ def _nested_nodes(o, top=True):
     elif isinstance(o, tuple):
         for v in o:
             out += _nested_nodes(v, False)
-    elif isinstance(o, (dict, immutabledict)):
+    elif isinstance(o, Mapping):
         for v in o.values():
             out += _nested_nodes(v, False)
     return out
